@@ -46,12 +46,12 @@ def check_cols(b, backend, got_cols, ops, case, final_select):
     if set(got_cols) != set(want) or len(got_cols) != len(set(got_cols)):
         b.violation("columns-differ-from-declared",
                     f"{backend}: result columns {list(got_cols)} != declared {want}\npipeline: {diff.describe(case)}",
-                    case=diff.case_json(case, {"backend": backend, "scrambled": bool(case.get("scrambled"))}))
+                    case=diff.case_json(case, {"backend": backend, "scrambled": bool(case.get("scrambled")), "wide": bool(case.get("wide"))}))
         return False
     if final_select is not None and list(got_cols) != list(final_select):
         b.violation("column-order-after-select_columns",
                     f"{backend}: result column order {list(got_cols)} != selected order {list(final_select)}\n"
-                    f"pipeline: {diff.describe(case)}", case=diff.case_json(case, {"backend": backend, "scrambled": bool(case.get("scrambled"))}))
+                    f"pipeline: {diff.describe(case)}", case=diff.case_json(case, {"backend": backend, "scrambled": bool(case.get("scrambled")), "wide": bool(case.get("wide"))}))
         return False
     return True
 
@@ -101,11 +101,25 @@ def run_batch(seed, batch, tier):
             with time_limit(30):
                 nps = (0, 0, 0.2, 0.6) if b.rng.random() < 0.8 else (1, 0.6, 0)
                 case, st = diff.new_case(b.rng, profile(tier, b.rng), tier, gl, null_ps=nps)
+                if b.rng.random() < 0.05:
+                    # the shortest pipelines: one row-ordering step directly over a table (the SQL for it names no term)
+                    t0 = case["tables"][0]
+                    cols0 = [c for c, _ in t0["cols"]]
+                    case["recipe"] = {"op": "order_rows", "cols": [b.rng.choice(cols0)], "reverse": [],
+                                      "limit": b.rng.choice([None, 2]),
+                                      "src": {"op": "table", "name": t0["name"], "cols": cols0}}
+                    case["final_order"] = None
+                    b.count("order_rows_directly_over_a_table")
                 scr = b.rng.random() < 0.35
                 ops = build_maybe_scrambled(case, scr, b)
                 if ops is None:
                     continue
                 frames = diff.used_frames(case)
+                if b.rng.random() < 0.3:
+                    # the caller's frame / the physical table has a column its table description does not list
+                    frames = {k: v.assign(zz_not_declared=7) for k, v in frames.items()}
+                    case["wide"] = True
+                    b.count("inputs_wider_than_description")
                 b.evaluation()
                 final_select = case["recipe"]["cols"] if case["recipe"]["op"] == "select_columns" else None
                 ok = True
@@ -181,6 +195,8 @@ def replay(v):
     if ops is None:
         return b.violations[0]["detail"]
     frames = diff.used_frames(c)
+    if c.get("wide"):
+        frames = {k: f.assign(zz_not_declared=7) for k, f in frames.items()}
     final_select = c["recipe"]["cols"] if c["recipe"]["op"] == "select_columns" else None
     be = c.get("backend", "pandas")
     try:
